@@ -375,8 +375,16 @@ func ExecOp(h *DBH, tx *nutsdb.Tx, op Op) (res Res) {
 	case "putts":
 		return errRes(tx.PutWithTimestamp(b, kb(op, op.Key), kb(op, op.V), op.TTL, op.TS))
 	case "putbig":
-		// an entry larger than the segment size: accepted by Put, rejected by Commit
-		return errRes(tx.Put(b, kb(op, op.Key), make([]byte, h.Cfg.Seg+1), 0))
+		// an entry larger than the segment size: accepted by Put, rejected by Commit.
+		// I == 0: a value of SegmentSize+1 bytes; I > 0: the whole entry is exactly I bytes too large (boundary)
+		n := h.Cfg.Seg + 1
+		if op.I > 0 {
+			n = h.Cfg.Seg - 42 - int64(len(b)) - int64(len(op.Key)) + int64(op.I)
+			if n < 0 {
+				n = h.Cfg.Seg + 1
+			}
+		}
+		return errRes(tx.Put(b, kb(op, op.Key), make([]byte, n), 0))
 	case "del":
 		return errRes(tx.Delete(b, kb(op, op.Key)))
 	case "get":
